@@ -17,6 +17,10 @@ import IbicusModel.Lemmas.C02Mean
 import IbicusModel.Lemmas.C02Shift
 import IbicusModel.Lemmas.C02Isimip
 import IbicusModel.Lemmas.C02Lift
+import IbicusModel.Lemmas.C02Grid
+import IbicusModel.Lemmas.C02Order
+import IbicusModel.Lemmas.C02Dates
+import IbicusModel.Lemmas.C02Pos
 
 namespace Props.C02
 open Model.Stats Model.Family Model.Debiasers Lemmas.C02
@@ -713,5 +717,371 @@ theorem isimip_months_shift (cfg : Model.Isimip.Cfg) (hU : Unbounded cfg) (ht : 
   cases applyLocationMonths (Model.Isimip.winFn cfg fam orc drw yearsO yearsH yearsF) mO mH mF obs H F with
   | error e => rfl
   | ok out => rfl
+
+/-! ## Part C — round 4: the remaining oracle clauses as theorems
+
+    * multiplicative configurations in seasonal windows (`windowed_scale`, DeltaChange loop);
+    * CDFt / QDM in seasonal windows for *any* `E`, `Q` with `ShiftLaws` (covers `kernel_density`);
+    * ISIMIP: what `_apply_on_window` returns minus what step 6 returned is the trend removed from `cm_future`
+      (`isimip_output_minus_step6`), for every configuration;
+    * the grid level (`Debiaser.apply` = `Model.Grid.debiaserApply`, tied by C05): a per-location law gives the
+      per-cell law (`grid_shift`, `grid_scale`);
+    * storage order (`isimip_trend_order_free`), inferred dates (`inferred_*`), month-mode linear trend
+      (`isimip_months_linear_trend_passes`). -/
+
+/-- **Generic seasonal lift, multiplicative form**: a per-window scale law lifts to the whole series. -/
+theorem windowed_scale (g : List Rat → List Rat → List Rat → List Rat) (k : Rat)
+    (hg : ∀ o h x, x ≠ [] → g o h (x.map (fun v => k * v)) = (g o h x).map (fun v => k * v))
+    (L S : Int) (dO dH dF : List Int) (obs hist fut : List Rat)
+    (hS : 0 < S) (hSL : S ≤ L) (hlen : dF.length = fut.length) (hr : ∀ d ∈ dF, 1 ≤ d ∧ d ≤ 366) :
+    applyLocationRW (winOf g) L S dO dH dF obs hist (fut.map (fun v => k * v)) =
+      (applyLocationRW (winOf g) L S dO dH dF obs hist fut).map (List.map (Option.map (fun v => k * v))) := by
+  have h := applyLocationRW_equivariant_ne (winOf g) id id (fun v => k * v) (fun v => k * v) L S dO dH dF obs hist fut
+    (by
+      intro o h x io ih ix hx
+      simp only [winOf, List.map_id, Except.map, hg o h x hx])
+    (futureWindow_ne_nil L S dF fut hS hSL hlen hr)
+  simpa only [List.map_id] using h
+
+theorem windowed_scale_DC (g : List Rat → List Rat → List Rat → List Rat) (k : Rat)
+    (hg : ∀ o h x, x ≠ [] → g o h (x.map (fun v => k * v)) = (g o h x).map (fun v => k * v))
+    (L S : Int) (dO dH dF : List Int) (obs hist fut : List Rat)
+    (hne : ∀ ctr ∈ useCenters S dO, take fut (idxWindow L dF ctr) ≠ []) :
+    applyLocationDC (winOf g) L S dO dH dF obs hist (fut.map (fun v => k * v)) =
+      (applyLocationDC (winOf g) L S dO dH dF obs hist fut).map (List.map (Option.map (fun v => k * v))) := by
+  have h := applyLocationDC_equivariant_ne (winOf g) id id (fun v => k * v) (fun v => k * v) L S dO dH dF obs hist fut
+    (by
+      intro o h x io ih ix hx
+      simp only [winOf, List.map_id, Except.map, hg o h x hx])
+    hne
+  simpa only [List.map_id] using h
+
+/-- LinearScaling multiplicative in seasonal windows: guard — no window has `mean(cm_hist) = 0` (`hH`) -/
+theorem ls_windowed_scale (k : Rat) (hk : 0 < k) (L S : Int) (dO dH dF : List Int) (obs hist fut : List Rat)
+    (hS : 0 < S) (hSL : S ≤ L) (hlen : dF.length = fut.length) (hr : ∀ d ∈ dF, 1 ≤ d ∧ d ≤ 366)
+    (_hH : ∀ ctr ∈ useCenters S dF, mean (take hist (idxWindow L dH ctr)) ≠ 0) :
+    applyLocationRW (winOf (linearScaling .multiplicative)) L S dO dH dF obs hist (fut.map (fun v => k * v)) =
+      (applyLocationRW (winOf (linearScaling .multiplicative)) L S dO dH dF obs hist fut).map
+        (List.map (Option.map (fun v => k * v))) := by
+  apply windowed_scale _ k _ L S dO dH dF obs hist fut hS hSL hlen hr
+  intro o h x _
+  unfold linearScaling
+  simp only [List.map_map]
+  apply List.map_congr_left
+  intro v _
+  simp only [Function.comp]
+  have := hk
+  ring
+
+theorem dc_windowed_scale (k : Rat) (_hk : 0 < k) (L S : Int) (dO dH dF : List Int) (obs hist fut : List Rat)
+    (hne : ∀ ctr ∈ useCenters S dO, take fut (idxWindow L dF ctr) ≠ []) :
+    applyLocationDC (winOf (deltaChange .multiplicative)) L S dO dH dF obs hist (fut.map (fun v => k * v)) =
+      (applyLocationDC (winOf (deltaChange .multiplicative)) L S dO dH dF obs hist fut).map
+        (List.map (Option.map (fun v => k * v))) := by
+  apply windowed_scale_DC _ k _ L S dO dH dF obs hist fut hne
+  intro o h x _
+  unfold deltaChange
+  simp only [List.map_map]
+  rw [mean_scale]
+  apply List.map_congr_left
+  intro v _
+  simp only [Function.comp]
+  ring
+
+theorem qm_windowed_scale (qm : List Rat → List Rat → List Rat → List Rat) (k : Rat) (hk : 0 < k) (L S : Int)
+    (dO dH dF : List Int) (obs hist fut : List Rat)
+    (hS : 0 < S) (hSL : S ≤ L) (hlen : dF.length = fut.length) (hr : ∀ d ∈ dF, 1 ≤ d ∧ d ≤ 366) :
+    applyLocationRW (winOf (quantileMapping qm .multiplicative)) L S dO dH dF obs hist (fut.map (fun v => k * v)) =
+      (applyLocationRW (winOf (quantileMapping qm .multiplicative)) L S dO dH dF obs hist fut).map
+        (List.map (Option.map (fun v => k * v))) := by
+  apply windowed_scale _ k _ L S dO dH dF obs hist fut hS hSL hlen hr
+  intro o h x _
+  -- the per-window proof needs `k ≠ 0` only (the guards `mean H ≠ 0`, `mean F ≠ 0` make the code's divisions defined)
+  unfold quantileMapping
+  simp only
+  rw [mean_scale]
+  have hk' : k ≠ 0 := ne_of_gt hk
+  have hin : (x.map (fun v => k * v)).map (fun v => v / (k * mean x / mean h)) =
+      x.map (fun v => v / (mean x / mean h)) := by
+    rw [List.map_map]
+    apply List.map_congr_left
+    intro v _
+    simp only [Function.comp]
+    rw [mul_div_assoc k (mean x) (mean h), mul_div_mul_left _ _ hk']
+  rw [hin, List.map_map]
+  apply List.map_congr_left
+  intro y _
+  simp only [Function.comp]
+  ring
+
+/-- **CDFt in seasonal windows, generic** in `E`, `Q` (`ShiftLaws`): covers `ecdf_method = "kernel_density"`
+    (`shiftLaws_hist_iecdf`) as well as the 2 × 9 pairs. -/
+theorem cdftG_windowed_shift (E Q : List Rat → Rat → Rat) (hL : ShiftLaws E Q) (d : DeltaShift)
+    (hd : d = .additive ∨ d = .no_shift) (c : Rat) (L S : Int) (dO dH dF : List Int) (obs hist fut : List Rat)
+    (hS : 0 < S) (hSL : S ≤ L) (hlen : dF.length = fut.length) (hr : ∀ d ∈ dF, 1 ≤ d ∧ d ≤ 366)
+    (hH : ∀ ctr ∈ useCenters S dF, take hist (idxWindow L dH ctr) ≠ []) :
+    applyLocationRW (winOf (cdftMappingG E Q d)) L S dO dH dF obs hist (fut.map (fun v => v + c)) =
+      (applyLocationRW (winOf (cdftMappingG E Q d)) L S dO dH dF obs hist fut).map
+        (List.map (Option.map (fun v => v + c))) := by
+  have hF := futureWindow_ne_nil L S dF fut hS hSL hlen hr
+  have h := applyLocationRW_equivariant_at (winOf (cdftMappingG E Q d)) id id (fun v => v + c) (fun v => v + c)
+    L S dO dH dF obs hist fut
+    (by
+      intro ctr hc
+      simp only [winOf, List.map_id, Except.map, cdft_shiftG E Q hL d hd _ _ _ c (hH ctr hc) (hF ctr hc)])
+  simpa only [List.map_id] using h
+
+/-- **QDM absolute in seasonal windows, generic** in the family and in the shift-invariant empirical cdf -/
+theorem qdmG_windowed_shift {P} (Fam : Family P) (E : List Rat → Rat → Rat)
+    (hE : ∀ (x : List Rat) (y c : Rat), x ≠ [] → E (x.map (fun v => v + c)) (y + c) = E x y)
+    (t c : Rat) (L S : Int) (dO dH dF : List Int) (obs hist fut : List Rat) :
+    applyLocationRW (winOf (fun o h x => qdmStepsG Fam .absolute E t none x (Fam.fit o) (Fam.fit h))) L S dO dH dF
+        obs hist (fut.map (fun v => v + c)) =
+      (applyLocationRW (winOf (fun o h x => qdmStepsG Fam .absolute E t none x (Fam.fit o) (Fam.fit h))) L S dO dH dF
+        obs hist fut).map (List.map (Option.map (fun v => v + c))) := by
+  have h := Lemmas.Lift.applyLocationRW_equivariant
+    (winOf (fun o h x => qdmStepsG Fam .absolute E t none x (Fam.fit o) (Fam.fit h))) id id (fun v => v + c)
+    (fun v => v + c) L S dO dH dF obs hist fut
+    (by
+      intro o h x io ih ix
+      simp only [winOf, List.map_id, Except.map, qdm_absolute_shiftG Fam E hE t x _ _ c])
+  simpa only [List.map_id] using h
+
+/-- **ISIMIP, every configuration: output − (step-6 result) = the trend removed from `cm_future`.**  Whenever
+    `_apply_on_window` returns `out`, step 6 returned some `r` of the length of `cm_future` and
+    `out − r` is, value by value, the fourth component of `step3` (the within-period trend: `slope·(year − mean year)`
+    by `isimip_removed_trend_linear`, zero by `isimip_removed_trend_zero`).  No assumption on the order in which the
+    dated values are stored. -/
+theorem isimip_output_minus_step6 (cfg : Model.Isimip.Cfg) (fam : Model.Isimip.IsiFamily) (o : Model.Isimip.Oracles)
+    (d : Model.Isimip.Draws) (obs H F : List Rat) (yO yH yF : List Int) (out : List Rat)
+    (hlen : F.length = yF.length)
+    (hrun : Model.Isimip.applyOnWindow cfg fam o d obs H F yO yH yF = .ok out) :
+    ∃ r : List Rat, r.length = F.length ∧
+      List.zipWith (· - ·) out r = (Model.Isimip.step3 cfg o obs H F yO yH yF).2.2.2 := by
+  rw [Lemmas.IsimipModel.applyOnWindow_eq] at hrun
+  cases h4 : Model.Isimip.step4 cfg d (Model.Isimip.step3 cfg o obs H F yO yH yF).1
+      (Model.Isimip.step3 cfg o obs H F yO yH yF).2.1 (Model.Isimip.step3 cfg o obs H F yO yH yF).2.2.1 with
+  | error e => rw [h4] at hrun; simp [Except.bind] at hrun
+  | ok r4 =>
+    rw [h4] at hrun
+    simp only [Except.bind] at hrun
+    cases h5 : Model.Isimip.step5 cfg o r4.1 r4.2.1 r4.2.2 with
+    | error e => rw [h5] at hrun; simp at hrun
+    | ok oF =>
+      rw [h5] at hrun
+      simp only at hrun
+      cases h6 : Model.Isimip.step6 cfg fam o r4.1 oF r4.2.1 r4.2.2 with
+      | error e => rw [h6] at hrun; simp at hrun
+      | ok r =>
+        rw [h6] at hrun
+        simp only [Except.ok.injEq] at hrun
+        have hr : r.length = F.length := by
+          have hl := step6_length cfg fam o r4.1 oF r4.2.1 r4.2.2 r h6
+          rw [hl, step4_future_length cfg d _ _ _ r4 h4]
+          exact (step3_future_length cfg o obs H F yO yH yF hlen)
+        refine ⟨r, hr, ?_⟩
+        rw [← hrun]
+        exact isimip_step7_restores cfg o obs H F r yO yH yF hr hlen
+
+/-! ### the grid level: `Debiaser.apply` / `DeltaChange.apply` (model `Model.Grid`, tied to the code by C05) -/
+
+open Model.Grid in
+/-- a value of the floating output mapped through `ψ` (the failsafe NaN stays NaN) -/
+def valMap (ψ : Rat → Rat) : Val Rat → Val Rat
+  | .nan => .nan
+  | .val x => .val (ψ x)
+
+open Model.Grid in
+/-- **A per-location law is a per-cell law of `apply`** (serial or parallel, any grid shape): change every entry of
+    the `cm_future` array by `φ`; if at cell `(i, j)` the location function answers with `ψ` applied to its former
+    result, the output column at `(i, j)` is the former column mapped through `ψ`. -/
+theorem grid_equivariant {ε : Type} (loc : LocFn Rat ε) (φ ψ : Rat → Rat) (fs : Bool) (obs hist fut : Arr3 Rat)
+    (nx ny : Nat) (m : Mode) (hm : ModeOk m nx ny) (out out' : Arr3 (Elem Rat))
+    (h : debiaserApply loc fs obs hist fut nx ny m = .ok out)
+    (h' : debiaserApply loc fs obs hist (map3 φ fut) nx ny m = .ok out')
+    (i j : Nat) (hi : i < nx) (hj : j < ny) (v : List Rat)
+    (hv : loc (slice obs i j) (slice hist i j) (slice fut i j) = .ok v) (hl : v.length = fut.length)
+    (hloc : loc (slice obs i j) (slice hist i j) ((slice fut i j).map φ) = .ok (v.map ψ)) :
+    slice out' i j = (slice out i j).map (Option.map (valMap ψ)) := by
+  rw [Props.C05.debiaser_cellwise loc fs obs hist fut nx ny m hm out h i j hi hj v hv hl]
+  rw [Props.C05.debiaser_cellwise loc fs obs hist (map3 φ fut) nx ny m hm out' h' i j hi hj (v.map ψ)
+    (by rw [slice_map3]; exact hloc) (by rw [List.length_map, map3_length]; exact hl)]
+  rw [List.map_map, List.map_map]
+  rfl
+
+open Model.Grid in
+/-- the same for `DeltaChange.apply` (output shaped like `obs`) -/
+theorem grid_equivariant_DC {ε : Type} (loc : LocFn Rat ε) (φ ψ : Rat → Rat) (fs : Bool) (obs hist fut : Arr3 Rat)
+    (nx ny : Nat) (m : Mode) (hm : ModeOk m nx ny) (out out' : Arr3 (Elem Rat))
+    (h : deltaChangeApply loc fs obs hist fut nx ny m = .ok out)
+    (h' : deltaChangeApply loc fs obs hist (map3 φ fut) nx ny m = .ok out')
+    (i j : Nat) (hi : i < nx) (hj : j < ny) (v : List Rat)
+    (hv : loc (slice obs i j) (slice hist i j) (slice fut i j) = .ok v) (hl : v.length = obs.length)
+    (hloc : loc (slice obs i j) (slice hist i j) ((slice fut i j).map φ) = .ok (v.map ψ)) :
+    slice out' i j = (slice out i j).map (Option.map (valMap ψ)) := by
+  rw [Props.C05.deltachange_cellwise loc fs obs hist fut nx ny m hm out h i j hi hj v hv hl]
+  rw [Props.C05.deltachange_cellwise loc fs obs hist (map3 φ fut) nx ny m hm out' h' i j hi hj (v.map ψ)
+    (by rw [slice_map3]; exact hloc) (by rw [List.length_map]; exact hl)]
+  rw [List.map_map, List.map_map]
+  rfl
+
+open Model.Grid in
+/-- **`apply(obs, cm_hist, cm_future + c) = apply(obs, cm_hist, cm_future) + c`, cell by cell**, for a location
+    function with the shift law at that cell (every additive theorem of parts A / B provides it). -/
+theorem grid_shift {ε : Type} (loc : LocFn Rat ε) (c : Rat) (fs : Bool) (obs hist fut : Arr3 Rat)
+    (nx ny : Nat) (m : Mode) (hm : ModeOk m nx ny) (out out' : Arr3 (Elem Rat))
+    (h : debiaserApply loc fs obs hist fut nx ny m = .ok out)
+    (h' : debiaserApply loc fs obs hist (map3 (fun x => x + c) fut) nx ny m = .ok out')
+    (i j : Nat) (hi : i < nx) (hj : j < ny) (v : List Rat)
+    (hv : loc (slice obs i j) (slice hist i j) (slice fut i j) = .ok v) (hl : v.length = fut.length)
+    (hloc : loc (slice obs i j) (slice hist i j) ((slice fut i j).map (fun x => x + c)) =
+      (loc (slice obs i j) (slice hist i j) (slice fut i j)).map (List.map (fun x => x + c))) :
+    slice out' i j = (slice out i j).map (Option.map (valMap (fun x => x + c))) :=
+  grid_equivariant loc _ _ fs obs hist fut nx ny m hm out out' h h' i j hi hj v hv hl (by rw [hloc, hv]; rfl)
+
+open Model.Grid in
+/-- the multiplicative counterpart -/
+theorem grid_scale {ε : Type} (loc : LocFn Rat ε) (k : Rat) (fs : Bool) (obs hist fut : Arr3 Rat)
+    (nx ny : Nat) (m : Mode) (hm : ModeOk m nx ny) (out out' : Arr3 (Elem Rat))
+    (h : debiaserApply loc fs obs hist fut nx ny m = .ok out)
+    (h' : debiaserApply loc fs obs hist (map3 (fun x => k * x) fut) nx ny m = .ok out')
+    (i j : Nat) (hi : i < nx) (hj : j < ny) (v : List Rat)
+    (hv : loc (slice obs i j) (slice hist i j) (slice fut i j) = .ok v) (hl : v.length = fut.length)
+    (hloc : loc (slice obs i j) (slice hist i j) ((slice fut i j).map (fun x => k * x)) =
+      (loc (slice obs i j) (slice hist i j) (slice fut i j)).map (List.map (fun x => k * x))) :
+    slice out' i j = (slice out i j).map (Option.map (valMap (fun x => k * x))) :=
+  grid_equivariant loc _ _ fs obs hist fut nx ny m hm out out' h h' i j hi hj v hv hl (by rw [hloc, hv]; rfl)
+
+/-- non-vacuity at the grid level: window-free LinearScaling as the location function satisfies `hloc` at every cell -/
+example (o h x : List Rat) (c : Rat) :
+    (fun o h x => (Except.ok (linearScaling .additive o h x) : Except String (List Rat))) o h (x.map (fun v => v + c)) =
+      ((fun o h x => (Except.ok (linearScaling .additive o h x) : Except String (List Rat))) o h x).map
+        (List.map (fun v => v + c)) := by
+  simp only [Except.map, ls_add_shift]
+
+/-! ### storage order: the trend is a function of the dated values, not of where they are stored -/
+
+/-- **The within-period trend does not depend on the storage order of the dated series** (a descending, block-swapped
+    or shuffled time axis given with its explicit dates): for two arrangements `xs`, `xs'` of the same dated values
+    the regression slope of the annual means and the mean year coincide, … -/
+theorem isimip_trend_order_free {xs xs' : List Dated} (h : xs.Perm xs') :
+    trendSlope (xs.map Prod.fst) (xs.map Prod.snd) = trendSlope (xs'.map Prod.fst) (xs'.map Prod.snd) ∧
+    meanYear (xs.map Prod.snd) = meanYear (xs'.map Prod.snd) :=
+  ⟨trendSlope_order_free h, meanYear_order_free (h.map Prod.snd)⟩
+
+/-- … and **what step 3 removes from a dated value (and step 7 restores) is the same amount per date in either
+    arrangement**: in the arrangement `xs'` every value of year `y` loses `trendAt cfg sig xs y`, the amount it loses
+    in the arrangement `xs` (`trendAt` reads the annual trend at the position of `y` in `np.unique(years)`). -/
+theorem isimip_removed_trend_order_free (cfg : Model.Isimip.Cfg) (sig : Bool) {xs xs' : List Dated} (h : xs.Perm xs') :
+    (Model.Isimip.step3RemoveTrend cfg sig (xs'.map Prod.fst) (xs'.map Prod.snd)).2 =
+      xs'.map (fun p => trendAt cfg sig xs p.2) ∧
+    (Model.Isimip.step3RemoveTrend cfg sig (xs.map Prod.fst) (xs.map Prod.snd)).2 =
+      xs.map (fun p => trendAt cfg sig xs p.2) := by
+  unfold Model.Isimip.step3RemoveTrend
+  simp only [dailyTrend_eq_trendAt, trendAt_order_free cfg sig h, and_self]
+
+example : ([((1 : Rat), (2031 : Int)), (2, 2030), (4, 2031)] : List Dated).Perm [(2, 2030), (1, 2031), (4, 2031)] := by
+  decide
+
+/-! ### inferred dates (`time_* = None`): consecutive days from 1950-01-01, a function of the length only -/
+
+open Model.InferredDates in
+/-- the inferred days of year are well formed for every length: one per step, each in `1..366` — the date guards of
+    the windowed theorems hold automatically when `time_cm_future` is not given -/
+theorem inferred_doy_wellformed (n : Nat) : (inferredDoy n).length = n ∧ ∀ d ∈ inferredDoy n, 1 ≤ d ∧ d ≤ 366 :=
+  ⟨inferredDoy_length n, inferredDoy_range n⟩
+
+open Model.InferredDates in
+/-- **The time information of a changed series is that of the original one**, given or inferred: an element-wise
+    change keeps the length, and the inferred arrays depend on the length only. -/
+theorem inferred_length_only {α} (φ : α → α) (x : List α) (given : Option (List Int)) (inferred : Nat → List Int) :
+    resolve given inferred (x.map φ).length = resolve given inferred x.length := by
+  rw [List.length_map]
+
+open Model.InferredDates in
+/-- not giving the dates is the same as giving the dates ibicus would infer (the correspondence
+    `DrvInferredDates` ties `inferredDoy / inferredYears / inferredMonths` to the real inferred arrays) -/
+theorem inferred_eq_explicit (inferred : Nat → List Int) (n : Nat) :
+    resolve none inferred n = resolve (some (inferred n)) inferred n := rfl
+
+open Model.InferredDates in
+/-- **Seasonal lift with inferred dates**: `time_obs`, `time_cm_hist` given or not, `time_cm_future` not given —
+    no guard on dates is left (only the window parameters `0 < S ≤ L`). -/
+theorem windowed_shift_inferred (g : List Rat → List Rat → List Rat → List Rat) (c : Rat)
+    (hg : ∀ o h x, x ≠ [] → g o h (x.map (fun v => v + c)) = (g o h x).map (fun v => v + c))
+    (L S : Int) (tO tH : Option (List Int)) (obs hist fut : List Rat) (hS : 0 < S) (hSL : S ≤ L) :
+    applyLocationRW (winOf g) L S (resolve tO inferredDoy obs.length) (resolve tH inferredDoy hist.length)
+        (resolve none inferredDoy (fut.map (fun v => v + c)).length) obs hist (fut.map (fun v => v + c)) =
+      (applyLocationRW (winOf g) L S (resolve tO inferredDoy obs.length) (resolve tH inferredDoy hist.length)
+        (resolve none inferredDoy fut.length) obs hist fut).map (List.map (Option.map (fun v => v + c))) := by
+  rw [inferred_length_only]
+  exact windowed_shift g c hg L S _ _ _ obs hist fut hS hSL (inferredDoy_length _) (inferredDoy_range _)
+
+open Model.InferredDates in
+theorem windowed_scale_inferred (g : List Rat → List Rat → List Rat → List Rat) (k : Rat)
+    (hg : ∀ o h x, x ≠ [] → g o h (x.map (fun v => k * v)) = (g o h x).map (fun v => k * v))
+    (L S : Int) (tO tH : Option (List Int)) (obs hist fut : List Rat) (hS : 0 < S) (hSL : S ≤ L) :
+    applyLocationRW (winOf g) L S (resolve tO inferredDoy obs.length) (resolve tH inferredDoy hist.length)
+        (resolve none inferredDoy (fut.map (fun v => k * v)).length) obs hist (fut.map (fun v => k * v)) =
+      (applyLocationRW (winOf g) L S (resolve tO inferredDoy obs.length) (resolve tH inferredDoy hist.length)
+        (resolve none inferredDoy fut.length) obs hist fut).map (List.map (Option.map (fun v => k * v))) := by
+  rw [inferred_length_only]
+  exact windowed_scale g k hg L S _ _ _ obs hist fut hS hSL (inferredDoy_length _) (inferredDoy_range _)
+
+example : Model.InferredDates.dateOf 18321 = (2000, 60) := by decide  -- 29 February 2000
+
+/-! ### ISIMIP month mode: a linear within-period trend added to the whole `cm_future` series passes through -/
+
+/-- **ISIMIP `apply_location`, month mode: adding `b·(year − mean year)` to `cm_future` adds exactly that signal to
+    every debiased value** (`addSignal`: `out'[i] = out[i] + b·(year_i − mean year)`, never-written entries stay so).
+    Guards (those the harness checks on its cases): detrending on; in every calendar month the regression of
+    `cm_future` is significant in both runs (oracle, the same decision: `hsigF`); every month sample covers the same
+    mean year as the whole series (`hmean`: every year has every month) and at least two different years (`h2`);
+    month / year lists parallel to the series; no scaling by the annual cycle.  Any configuration of steps 4–6. -/
+theorem isimip_months_linear_trend_passes (cfg : Model.Isimip.Cfg) (hd : cfg.detrending = true)
+    (hsig : cfg.detrendingWithSignificanceTest = true) (hcyc : cfg.scaleByAnnualCycle = false)
+    (fam : Model.Isimip.IsiFamily) (orc : List Nat → Model.Isimip.Oracles) (drw : List Nat → Model.Isimip.Draws)
+    (b : Rat) (mO mH mF doyO doyH doyF yearsO yearsH yearsF : List Int) (obs H F : List Rat)
+    (hlF : mF.length = F.length) (hyF : F.length = yearsF.length)
+    (hsigF : ∀ m ∈ Py.arange1 1 13, (orc (monthIdx mF m)).sigF = true)
+    (hmean : ∀ m ∈ Py.arange1 1 13, meanYear (take yearsF (monthIdx mF m)) = meanYear yearsF)
+    (h2 : ∀ m ∈ Py.arange1 1 13, ∃ y1 ∈ take yearsF (monthIdx mF m), ∃ y2 ∈ take yearsF (monthIdx mF m), y1 ≠ y2) :
+    Model.Isimip.applyLocationMonths cfg fam orc drw mO mH mF doyO doyH doyF yearsO yearsH yearsF obs H
+        (List.zipWith (· + ·) F (linearSignal b yearsF)) =
+      (Model.Isimip.applyLocationMonths cfg fam orc drw mO mH mF doyO doyH doyF yearsO yearsH yearsF obs H F).map
+        (addSignal (linearSignal b yearsF)) := by
+  have hG : (linearSignal b yearsF).length = F.length := by simp [linearSignal, hyF]
+  have hvalidF : ∀ m, ∀ j ∈ monthIdx mF m, j < F.length := fun m j hj => hlF ▸ monthIdx_valid mF m j hj
+  -- the global signal restricted to a month sample is the month sample's own linear signal
+  have hsignal : ∀ m ∈ Py.arange1 1 13, take (linearSignal b yearsF) (monthIdx mF m) = linearSignal b (take yearsF (monthIdx mF m)) := by
+    intro m hm
+    unfold linearSignal
+    rw [take_map', hmean m hm]
+  have hwlen : ∀ m, (take F (monthIdx mF m)).length = (take yearsF (monthIdx mF m)).length :=
+    fun m => take_length_eq F yearsF _ hyF (hvalidF m)
+  have h := applyLocationMonths_pos (Model.Isimip.winFn cfg fam orc drw yearsO yearsH yearsF) mO mH mF obs H F
+    (linearSignal b yearsF) hG hlF
+    (by
+      intro m hm
+      simp only [Model.Isimip.winFn]
+      rw [hsignal m hm]
+      exact applyOnWindow_add_linear cfg hd hsig fam _ (hsigF m hm) _ b _ _ _ _ _ _ (hwlen m)
+        (yearsSS_ne_zero _ (h2 m hm)))
+    (by
+      intro m _ res hres
+      simp only [Model.Isimip.winFn] at hres
+      rw [applyOnWindow_length cfg fam _ _ _ _ _ _ _ _ res (hwlen m) hres]
+      exact Lemmas.Pointwise.take_length F _ (hvalidF m))
+  unfold Model.Isimip.applyLocationMonths Model.Isimip.step1 Model.Isimip.step8Buffer
+  simp only [hcyc, Bool.false_eq_true, if_false, bind, Except.bind, pure, Except.pure, h]
+  cases applyLocationMonths (Model.Isimip.winFn cfg fam orc drw yearsO yearsH yearsF) mO mH mF obs H F with
+  | error e => rfl
+  | ok out => rfl
+
+/-- the guards are satisfiable: two full years of monthly values — every month sample is `{2030, 2031}` -/
+example : ∀ m ∈ Py.arange1 1 13, ∃ y1 ∈ take ((List.replicate 12 (2030 : Int)) ++ List.replicate 12 2031)
+      (monthIdx (Py.arange1 1 13 ++ Py.arange1 1 13) m),
+    ∃ y2 ∈ take ((List.replicate 12 (2030 : Int)) ++ List.replicate 12 2031) (monthIdx (Py.arange1 1 13 ++ Py.arange1 1 13) m),
+      y1 ≠ y2 := by decide
 
 end Props.C02
